@@ -559,6 +559,12 @@ HUGE_FLOAT_PROGRAMS = [
      "    let ob: { big: float, small: float, l: [float] } = o.to_json().parse_json();\n    println(ob == o, o == ob);\n"
      "    let n: [[float]] = [[1.5, -700000000000000000000.0], [0.25]];\n    let nb: [[float]] = n.to_json().parse_json();\n    println(nb == n);\n}",
      "true true\ntrue true\ntrue\n"),
+    # many significant digits at and beyond 1e21 (where Go's own JSON encoder switches to exponent notation), tiny values
+    ("fn main() {\n    let a: [float] = [602214076000000000000000.0, 12345678900000000000000000.0, 1234567890123456789012.0, 999999999999999983222784.0, 0.000000123456789, -0.00000000987654321];\n"
+     "    let back: [float] = a.to_json().parse_json();\n    println(back == a, a == back);\n"
+     "    let o = new { peak: ?12345678900000000000000000.0, counts: [602214076000000000000000.0, 1500000000000000000000.0, 2.5], unit: \"1/mol\" };\n"
+     "    let ob: { peak: ?float, counts: [float], unit: str } = o.to_json().parse_json();\n    println(ob == o, o == ob, ob.counts[0] == o.counts[0], ob.peak == o.peak);\n}",
+     "true true\ntrue true true true\n"),
 ]
 
 
